@@ -132,7 +132,7 @@ func c14(args []string) error {
 			continue
 		}
 		x := res{l1: []int{}, l2: []int{}, rowsN: []string{}, rowsS: []string{}}
-		kind := r.Intn(17)
+		kind := r.Intn(19)
 		switch kind {
 		case 0:
 			var m map[uint8]int64
@@ -303,6 +303,74 @@ func c14(args []string) error {
 				x.num = "0"
 			}
 			add(alpha, names, seqs, "NumMutationsComparedToReferenceSequence", fmt.Sprintf("OpMutVsRef %s %s", coqZ(ri), coqZ(si)), x)
+		case 17, 18:
+			// lists of mutations relative to a reference holding several gap runs (several insertions)
+			if nseq < 1 {
+				continue
+			}
+			ri, si := r.Intn(nseq), r.Intn(nseq)
+			if L >= 3 && r.Intn(3) > 0 {
+				// rebuild the two rows: reference with gap runs, the other row mostly filled
+				pool := "ACGTRYN-"
+				if alpha != align.NUCLEOTIDS {
+					pool = "ARNDX-LK"
+				}
+				rb, sb := []byte(seqs[ri]), []byte(seqs[si])
+				for j := 0; j < L; j++ {
+					if r.Intn(5) < 2 {
+						rb[j] = '-'
+					} else {
+						rb[j] = pool[r.Intn(len(pool)-1)]
+					}
+				}
+				if si != ri {
+					for j := 0; j < L; j++ {
+						sb[j] = pool[r.Intn(len(pool))]
+						if r.Intn(8) == 0 {
+							sb[j] = rb[j]
+						}
+					}
+				} else {
+					sb = rb
+				}
+				seqs[ri], seqs[si] = string(rb), string(sb)
+				if a, e = mkAlign(alpha, names, seqs); e != nil {
+					continue
+				}
+			}
+			x.class, _ = guarded(5e9, func() error {
+				ref, _ := a.Sequence(ri)
+				s, _ := a.Sequence(si)
+				muts, e := s.ListMutationsComparedToReferenceSequence(alpha, ref, false)
+				if e != nil {
+					return e
+				}
+				// a second call must agree (and must not disturb the first answer)
+				muts2, e2 := s.ListMutationsComparedToReferenceSequence(alpha, ref, false)
+				if e2 != nil {
+					return e2
+				}
+				x.flag = len(muts) == len(muts2)
+				var sb strings.Builder
+				sb.WriteString("[")
+				for mi, m := range muts {
+					if mi > 0 {
+						sb.WriteString("; ")
+					}
+					sb.WriteString("[")
+					for k, c := range m.Alt {
+						if k > 0 {
+							sb.WriteString("; ")
+						}
+						fmt.Fprintf(&sb, "(%s, %s, %s)", coqByte(m.Ref), coqByte(c), coqZ(m.Pos))
+					}
+					sb.WriteString("]")
+				}
+				sb.WriteString("]")
+				x.diffs = sb.String()
+				return nil
+			})
+			add(alpha, names, seqs, "ListMutationsComparedToReferenceSequence", fmt.Sprintf("OpMutList %s %s", coqZ(ri), coqZ(si)), x)
 		}
 	}
 	// EqualOrCompatible on all code pairs 0..16
